@@ -8,6 +8,24 @@ V = Path(__file__).resolve().parent.parent
 CHECKS = {f.stem: json.loads(f.read_text()) for f in sorted((V / "tools" / "manifest").glob("C*.json"))}
 PENDING_REASON = {}
 props = [json.loads(l)["id"] for l in (V / "properties.jsonl").read_text().splitlines() if l.strip()]
+import re
+
+
+def findings_sentence(pid):
+    f = V / "known_findings" / f"{pid}.json"
+    if not f.exists():
+        return ""
+    es = json.loads(f.read_text()).get("findings", [])
+    op = [e["id"].replace(pid + "-", "") for e in es if e.get("status") == "open"]
+    fx = []
+    for e in es:
+        if e.get("status") == "fixed":
+            m = re.search(r"fixed: property=\w+ ([0-9a-f]{7,})", e.get("what", ""))
+            fx.append(e["id"].replace(pid + "-", "") + (f" ({m.group(1)})" if m else ""))
+    return (" Current state of known_findings/%s.json (generated): open = %s; repaired by fix: commits = %s."
+            % (pid, ", ".join(op) or "none", ", ".join(fx) or "none"))
+
+
 checks = []
 for pid in props:
     if pid not in CHECKS:
@@ -22,7 +40,7 @@ for pid in props:
             "replay_cmd_template": f"./check {pid} --replay {{path}}",
             "engine": "lean4-model+correspondence",
             "level_claimed": {"category": "proof", "text": c["text"], "design_ref": c.get("design_ref", f"DESIGN.md section 5 {pid}")},
-            "level_note": c["note"],
+            "level_note": c["note"] + findings_sentence(pid),
             "technique": c["technique"],
         }
     )
@@ -46,7 +64,7 @@ man = {
         }
     ],
     "checks": checks,
-    "notes": "See DESIGN.md. Exit 0 held / 1 violation / 2 infrastructure failure. known_findings.json lists genuine defects that are reported as KNOWN-FINDING.",
+    "notes": "See DESIGN.md. Exit 0 held / 1 violation / 2 infrastructure failure. known_findings/CNN.json lists genuine defects: status open entries are reported as KNOWN-FINDING (exit 0) when the check meets a failing input of exactly that class, status fixed entries suppress nothing.",
     "not_applicable": na,
 }
 (V / "MANIFEST.json").write_text(json.dumps(man, indent=1) + "\n")
